@@ -194,11 +194,15 @@ func solveOne(r *FuncResult, o *Obligation, opt solveOpts) {
 	}
 	o.Result, o.Backend, o.Ms, o.Detail = res.verdict, res.solver, res.ms, firstLines(res.raw, 6)
 	if opt.confirm && o.Result == "unsat" && o.Expect == "unsat" {
+		tries := 0
 		for _, s := range solvers(opt.seed, opt.timeoutS) {
 			if strings.SplitN(s.Name, "/", 2)[0] == strings.SplitN(o.Backend, "/", 2)[0] {
 				continue
 			}
-			c := portfolio(file, opt.seed, opt.timeoutS, s.Name)
+			if tries++; tries > 2 {
+				break // confirmation is best effort: two other back ends, 30 s each
+			}
+			c := portfolio(file, opt.seed, min(30, opt.timeoutS), s.Name)
 			if c.verdict == "sat" {
 				o.Result = "disagree"
 				o.Detail += "\nsecond solver " + s.Name + " answered sat"
